@@ -110,6 +110,7 @@ class Gen:
         self.env = None
         self.labels = 0
         self.data_items = []     # (text, kind) in source order
+        self.restore_labels = {}  # item index -> label of the DATA statement starting there
         self.data_types = []
         self.n_inputs = 0
         self.input_specs = []    # per INPUT statement: list of target types
@@ -516,13 +517,21 @@ class Gen:
 
     def data_read(self, sc):
         r = self.r
-        if self.data_items and r.random() < 0.25:
-            # RESTORE, then read the first items again (same types)
-            n = min(len(self.data_items), r.randint(1, 3))
+        if self.data_items and r.random() < 0.3:
+            # RESTORE, then read the first items again (same types); or
+            # RESTORE <label> to the DATA statement that starts at item k
+            k = 0
+            lab = None
+            if r.random() < 0.5:
+                k = r.randint(0, len(self.data_items) - 1)
+                lab = self.restore_labels.get(k)
+                if lab is None:
+                    lab = self.restore_labels[k] = self.fresh('dl')
+            n = min(len(self.data_items) - k, r.randint(1, 3))
             lvs = []
-            for ty in self.data_types[:n]:
+            for ty in self.data_types[k:k + n]:
                 lvs.append(self.pick_lvalue(sc, ty) or ['var', self.new_scalar(sc, ty)])
-            return [{'k': 'restore', 'label': None}, {'k': 'read', 'lvs': lvs}]
+            return [{'k': 'restore', 'label': lab}, {'k': 'read', 'lvs': lvs}]
         n = r.randint(1, 3)
         lvs = []
         for _ in range(n):
@@ -939,6 +948,52 @@ class Gen:
             sc.arrays[name] = info
         return pre + [st]
 
+    def implicit_array_first_use(self, sc):
+        """An array that is never DIMmed (0 TO 10 in every dimension).  Its
+        first use, at the top of the program where it is certain to execute
+        first, is an assignment, a PRINT, a READ, an INPUT or a by-reference
+        argument."""
+        r = self.r
+        out = []
+        if not self.p['arrays'] or r.random() > 0.35:
+            return out
+        ty = r.choice(list(self.num_types) + (['$'] if self.p['strings'] else []))
+        name = self.fresh('ia', ty)
+        rank = r.choice((1, 1, 2))
+        sc.arrays[name] = {'ty': ty, 'bounds': [(0, 10)] * rank, 'dyn': False}
+        el = ['idx', name, [['lit', '%', r.choice((0, 1, 5, 10))] for _ in range(rank)]]
+        kinds = ['let', 'print']
+        if self.p['data'] and sc.kind == 'main':
+            kinds.append('read')
+        if self.p['input']:
+            kinds.append('input')
+        subs = [q for q in self.callable_procs(sc, 'sub')
+                if any(pt == ty and not isarr for _, pt, isarr in q['params'])]
+        if subs:
+            kinds += ['arg', 'arg']
+        k = r.choice(kinds)
+        if k == 'let':
+            out.append({'k': 'let', 'lv': el, 'e': self.lit(ty)})
+        elif k == 'print':
+            m = self.next_marker()
+            out.append({'k': 'print', 'items': [[['lit', '$', f'<{m}>'], ';'], [el, '']], 'marker': m})
+        elif k == 'read':
+            self.data_types.append(ty)
+            self.data_items.append('abc' if ty == '$' else ('7' if ty in '%&' else '1.5'))
+            out.append({'k': 'read', 'lvs': [el]})
+        elif k == 'input':
+            self.input_specs.append([ty])
+            out.append({'k': 'input', 'lvs': [el], 'prompt': None, 'psep': ';', 'semi': False})
+        else:
+            q = r.choice(subs)
+            args = self.call_args(sc, q)
+            i = r.choice([i for i, (_, pt, isarr) in enumerate(q['params']) if pt == ty and not isarr])
+            args[i] = el
+            out.append({'k': 'call', 'name': q['name'], 'args': args, 'style': 'call'})
+        m = self.next_marker()
+        out.append({'k': 'print', 'items': [[['lit', '$', f'<{m}>'], ';'], [el, '']], 'marker': m})
+        return out
+
     def declarations(self, sc):
         r = self.r
         out = []
@@ -1249,6 +1304,7 @@ class Gen:
         hl = None
         main += self.declarations(sc)
         self.add_array_params()
+        main += self.implicit_array_first_use(sc)
         # a parameter may have the name of a DIM SHARED variable: inside the
         # procedure the name means the parameter
         shared_scalars = [(n, t) for n, t in sorted(self.shared_vars.items()) if t in '%&!#$']
@@ -1381,6 +1437,12 @@ class Gen:
             i = 0
             while i < len(self.data_items):
                 n = r.randint(1, 4)
+                # a DATA statement starts at every RESTORE <label> target
+                for k in sorted(self.restore_labels, reverse=True):
+                    if i < k < i + n:
+                        n = k - i
+                if i in self.restore_labels:
+                    main.append({'k': 'label', 'name': self.restore_labels[i]})
                 main.append({'k': 'data', 'items': self.data_items[i:i + n]})
                 i += n
         for p in self.procs:
